@@ -3,6 +3,7 @@
 From Coq Require Import List Bool Arith NArith.
 From J2M.Model Require Import Base Cli.
 From J2M.Gen Require Cli.
+From J2M.Proofs Require Import CliProps.
 Import ListNotations.
 
 (* (T) the effect order of the code that exists now satisfies the atomicity shape: nothing is truncated, written or
@@ -18,3 +19,48 @@ Proof. split; reflexivity. Qed.
 Example C17_reordered_not_atomic :
   atomicb [ParseArgv; LoadSamples; OpenTruncate; Generate; BuildText; WriteAll; ReturnMsg; Print] = false.
 Proof. vm_compute. reflexivity. Qed.
+
+(* ---- for ALL fault schedules (Proofs/CliProps.v) ---- *)
+Theorem C17_atomic_failure :
+  forall (full : str) (faults : nat -> bool) (ops : list op) (file0 : option str),
+       atomicb ops = true ->
+       failed (run_ops full faults ops file0) = true ->
+       file (run_ops full faults ops file0) = file0 /\ stdout (run_ops full faults ops file0) = nil.
+Proof. exact CliProps.atomic_failure. Qed.
+
+Theorem C17_atomic_success :
+  forall (full : str) (faults : nat -> bool) (ops : list op) (file0 : option str),
+       atomicb ops = true ->
+       failed (run_ops full faults ops file0) = false ->
+       file (run_ops full faults ops file0) = (if existsb is_write ops then Some full else file0) /\
+       Forall (good_line full) (stdout (run_ops full faults ops file0)).
+Proof. exact CliProps.atomic_success. Qed.
+
+Theorem C17_main_ops_atomic :
+  forall (pa rc rc' : list op) (b : bool),
+       forallb pure_op pa = true ->
+       rc = rc' ++ BuildText :: nil -> forallb pure_op rc' = true -> atomicb (main_ops pa rc b) = true.
+Proof. exact CliProps.main_ops_atomic. Qed.
+
+Theorem C17_main :
+  forall (full : str) (faults : nat -> bool) (pa rc rc' : list op) (b : bool) (file0 : option str),
+       forallb pure_op pa = true ->
+       rc = rc' ++ BuildText :: nil ->
+       forallb pure_op rc' = true ->
+       let st := run_ops full faults (main_ops pa rc b) file0 in
+       if failed st
+       then file st = file0 /\ stdout st = nil
+       else
+        if b
+        then file st = Some full /\ stdout st = MSG :: nil
+        else file st = file0 /\ stdout st = full :: nil.
+Proof. exact CliProps.C17_main. Qed.
+
+Theorem C17_reordered_refuted :
+  forall full old : str,
+       atomicb reordered_ops = false /\
+       (exists faults : nat -> bool,
+          failed (run_ops full faults reordered_ops (Some old)) = true /\
+          file (run_ops full faults reordered_ops (Some old)) = Some nil).
+Proof. exact CliProps.reordered_refuted. Qed.
+
